@@ -37,18 +37,26 @@ def block_methods(repo):
         for m in all_meths(c):
             args = m.get("arguments") or []
             req = 0
+            kinds = []
+            for a in args:
+                ts0 = a["type"] if isinstance(a.get("type"), list) else [a.get("type")]
+                t0 = str(ts0[0])
+                dflt = bool(a.get("is_default")) or t0.startswith(("Default", "?"))
+                base_t = t0[len("Default"):] if t0.startswith("Default") else t0.lstrip("?")
+                if not a.get("is_asterisk") and not t0.startswith(("Block", "*")):
+                    kinds.append([base_t, dflt])
             for a in args:
                 ts = a["type"] if isinstance(a.get("type"), list) else [a.get("type")]
                 if a.get("is_default") or a.get("is_asterisk") or any(str(t).startswith(("Default", "?", "Block", "Optional", "*")) for t in ts):
                     continue
                 req += 1
-            res.append({"cls": c, "name": m["name"], "bps": m["block_parameters"], "req": req})
+            res.append({"cls": c, "name": m["name"], "bps": m["block_parameters"], "req": req, "kinds": kinds})
     return res
 
 
 class Check(Prop):
     ID = "C17"
-    RULE = ("cases = a block call on a literal-built receiver (arrays of one or two element types, hash, range, string, integer) of every "
+    RULE = ("cases = a block call (required arguments as literals or as expressions containing a method call) on a literal-built receiver (arrays of one or two element types, hash, range, string, integer) of every "
             "shipped method that declares block_parameters (incl. inherited Enumerable methods), with 0-3+ block parameters (declared "
             "count minus one up to plus two), do/end or braces, a parameter that shadows an outer variable, a variable first assigned "
             "inside the block, optionally nested inside another block and optionally containing a nested block with 0-3 parameters of its own; a third of the generated cases use a generated configured class Bq whose method declares 1-4 random block_parameters (Int/String/Float/Symbol/Bool/NilClass/Untyped/Bq). Oracle (model of docs/ti-config.md): inside the block parameter i "
@@ -73,6 +81,9 @@ class Check(Prop):
             for lit, elem in RECV[m["cls"]]:
                 for brace in (False, True):
                     yield {"m": m, "recv": lit, "elem": elem, "nparams": len(m["bps"]) + 1, "brace": brace, "shadow": 0, "outer": 0, "nest": False}
+                    if m.get("kinds"):
+                        yield {"m": m, "recv": lit, "elem": elem, "nparams": len(m["bps"]) + 1, "brace": brace, "shadow": 0, "outer": 0, "nest": False,
+                               "argform": 1 + (len(m["name"]) + brace) % 3}
 
     def gen_strategy(self):
         """Generated configured class with random block_parameters (modelled kinds only)."""
@@ -85,7 +96,8 @@ class Check(Prop):
             n = max(0, len(bps) + draw(st.integers(-1, 2)))
             m = {"cls": "Bq", "name": "bm", "bps": bps, "req": nargs}
             return {"m": m, "recv": "Bq.new", "elem": None, "nparams": n, "brace": draw(st.booleans()), "shadow": draw(st.integers(0, max(0, n))),
-                    "outer": draw(st.integers(0, len(OUTER) - 1)), "nest": draw(st.integers(0, 3)) == 0, "gen": True, "inner_block": draw(st.sampled_from([0, 0, 1, 2, 3]))}
+                    "outer": draw(st.integers(0, len(OUTER) - 1)), "nest": draw(st.integers(0, 3)) == 0, "gen": True, "inner_block": draw(st.sampled_from([0, 0, 1, 2, 3])),
+                    "argform": draw(st.sampled_from([0, 0, 1, 2, 3]))}
         return case()
 
     def strategy(self):
@@ -100,7 +112,8 @@ class Check(Prop):
             lit, elem = RECV[m["cls"]][draw(st.integers(0, len(RECV[m["cls"]]) - 1))]
             n = max(0, len(m["bps"]) + draw(st.integers(-1, 2)))
             return {"m": m, "recv": lit, "elem": elem, "nparams": n, "brace": draw(st.booleans()), "shadow": draw(st.integers(0, max(0, n))),
-                    "outer": draw(st.integers(0, len(OUTER) - 1)), "nest": draw(st.integers(0, 3)) == 0, "inner_block": draw(st.sampled_from([0, 0, 1, 2, 3, 4]))}
+                    "outer": draw(st.integers(0, len(OUTER) - 1)), "nest": draw(st.integers(0, 3)) == 0, "inner_block": draw(st.sampled_from([0, 0, 1, 2, 3, 4])),
+                    "argform": draw(st.sampled_from([0, 0, 1, 2, 3]))}
         return case()
 
     def sample(self, case):
@@ -115,8 +128,19 @@ class Check(Prop):
         if sh and sh <= n:
             ps[sh - 1] = "outer"      # this parameter shadows the outer variable
         oexpr, otype = OUTER[case.get("outer", 0)]
-        args = "(%s)" % ", ".join("1" for _ in range(m["req"])) if m["req"] else ""
+        # argument forms: a literal, or an expression that itself contains a method call (the block belongs to the outer call)
+        af = case.get("argform", 0) % 4
+        forms = {"Int": ["1", "cnt.length", "nn - 1", '"ab".length'], "Untyped": ["1", "cnt.length", "nn - 1", '"ab".length'],
+                 "Hash": ["{c: 1}", "hh.merge({d: 2})", "hh.merge({d: 2})", "{c: 1}"], "String": ['"s"', "ss.upcase", "ss + ss", '"s"']}
+        alist = []
+        for kind, dflt in (m.get("kinds") or [["Int", False]] * m["req"]):
+            if dflt and af % 2 == 0:
+                break                      # defaulted arguments are passed by the odd argument forms only
+            alist.append(forms.get(kind, ["1"] * 4)[af])
+        args = "(%s)" % ", ".join(alist) if alist else ""
         lines = ["outer = %s" % oexpr, "r = %s" % case["recv"]]
+        if af and alist:
+            lines += ["cnt = [1, 2]", "nn = 2", "hh = {c: 1}", 'ss = "t"']
         exp = []
         ind = ""
         if case.get("nest"):
